@@ -236,7 +236,7 @@ func c15Stacks(t *testing.T) {
 			res.Hit("ditto-used")
 		}
 		if i < 2 {
-			res.Sample(map[string]any{"case": i, "prog": fmt.Sprint(prog), "depth": depth, "frames": len(frames), "name_bytes": len(name), "name_head": trunc40(strings.ReplaceAll(name, "\n", "⏎")) })
+			res.Sample(map[string]any{"case": i, "prog": fmt.Sprint(prog), "depth": depth, "frames": len(frames), "name_bytes": len(name), "name_head": trunc40(strings.ReplaceAll(name, "\n", "⏎"))})
 		}
 	}
 	res.Require("truncated", "untruncated", "generic-frame", "ditto-used", "via-file")
